@@ -15,10 +15,12 @@
                          them together).
 -/
 import Rivia.Lemmas.Walk
+import Rivia.Lemmas.WalkCF
 
 namespace Rivia.Props
 open Rivia Rivia.Memfs Rivia.Spec
 open Rivia.Spec.TreeFs (pathLt)
+open Rivia.Lemmas.WalkCF (ExactDom2 FlagsExcl FlagsOkFor)
 
 /-! ### small concrete snapshots used as witnesses -/
 
@@ -35,6 +37,14 @@ def fileM : Entry := mkFileEntry [['b']]
 /-- `/` with an empty directory `/a` and a file `/b` -/
 def snapM : Snap := [([], rootM), ([['a']], dirA), ([['b']], fileM)]
 def oM : Opts := { minDepth := 1, contentsFirst := true, sorted := true }
+
+/-- an entry with BOTH kind flags (no constructor of the implementation builds one) -/
+def dirX : Entry := { mkDirEntry [['a']] none with file := true }
+def rootX : Entry := { mkDirEntry [] none with files := some [['a'], ['g']] }
+def fileX : Entry := mkFileEntry [['g']]
+/-- `/` with `/a` (directory AND file flag) and a file `/g` -/
+def snapX : Snap := [([], rootX), ([['a']], dirX), ([['g']], fileX)]
+def oX : Opts := { files := true, contentsFirst := true }
 end C08w
 open C08w
 
@@ -86,29 +96,51 @@ theorem C08_max_desc_irrelevant (snap : Snap) (o : Opts) (rootE : Entry) (m : Na
     Lemmas.Walk.collectEntries_pre (o := { o with maxDesc := m }) hwf hfol hcf hord hk hroot]
   exact congrArg Outcome.ok (Lemmas.Walk.walk_maxDesc snap o m _ rootE 0)
 
-/-! ### b. finding: `contents_first` bypasses the kind filter (and the order with `min_depth`) -/
+/-! ### b. `contents_first` with a kind filter (repaired) and with `min_depth` (finding, open) -/
 
-/-- witness: `entries("/").files().contents_first()` over `/`, `/f` yields the directory `/` -/
-theorem C08_finding_contents_first_ignores_filter :
+/-- REPAIRED (was the finding `contents_first_ignores_filter`: deferred directories bypassed the
+    kind filter, the traversal below yielded `[/f, /]`). `process` now filters before it defers;
+    on the former witness — `entries("/").files().contents_first()` over `/`, `/f` — the
+    directory `/` is no longer yielded, and the result is what the spec says -/
+theorem C08_repaired_contents_first_filter_witness :
     SnapWf snapB ∧ InSnap snapB rootB ∧ rootB.file = false ∧
-    collectEntries snapB oB rootB = .ok [fileB, rootB] := by decide
+    collectEntries snapB oB rootB = .ok [fileB] ∧ entriesSpec snapB oB rootB = [fileB] := by
+  have h2 : collectEntries snapB oB rootB = .ok [fileB] := by decide
+  refine ⟨by decide, by decide, by decide, h2, ?_⟩
+  have h := Lemmas.WalkCF.collectEntries_exact2 (snap := snapB) (o := oB) (rootE := rootB)
+    (by decide) (by decide) (fun _ _ => by decide) (by decide)
+  rw [h2] at h
+  exact (Outcome.ok.inj h).symm
 
-/-- hence the full statement fails (deferred directories are yielded without consulting the filter) -/
-theorem C08_full_false : ¬ C08_full := by
-  intro h
-  have h1 := h snapB oB rootB (by decide) (by decide) rfl rfl (by decide)
-  have h2 : collectEntries snapB oB rootB = .ok [fileB, rootB] := by decide
-  rw [h2] at h1
-  have h3 : rootB ∈ entriesSpec snapB oB rootB := by
-    rw [← Outcome.ok.inj h1]; simp
-  have := Lemmas.Walk.mem_walk_selected (by decide : SnapWf snapB) oB _ rootB 0 rootB (by decide) h3
-  simp [selected, oB, rootB, mkDirEntry] at this
-
-/-- second witness (order): with `min_depth(1).contents_first()` over `/`, `/a/`, `/b` the
-    directory `/a` is yielded AFTER its later sibling `/b` (it stays deferred until the stack is
-    lower than the deferred list); the walk has `/a` first -/
+/-- the finding that is NOT repaired (order): with `min_depth(1).contents_first()` over `/`, `/a/`,
+    `/b` the directory `/a` is yielded AFTER its later sibling `/b` (it stays deferred until the
+    stack is lower than the deferred list); the walk has `/a` first -/
 theorem C08_finding_contents_first_min_depth_order :
     SnapWf snapM ∧ InSnap snapM rootM ∧ collectEntries snapM oM rootM = .ok [fileM, dirA] := by decide
+
+/-- hence the full statement still fails (the walk lists siblings by name, `/a` before `/b`) -/
+theorem C08_full_false : ¬ C08_full := by
+  intro h
+  have h1 := h snapM oM rootM (by decide) (by decide) rfl rfl (by decide)
+  have h2 : collectEntries snapM oM rootM = .ok [fileM, dirA] := by decide
+  rw [h2] at h1
+  have h3 := Lemmas.Walk.walk_siblings (by decide : SnapWf snapM) oM (snapM.length + 1) rootM 0 (by decide)
+  have h4 : entriesSpec snapM oM rootM = [fileM, dirA] := (Outcome.ok.inj h1).symm
+  unfold entriesSpec at h4
+  rw [h4] at h3
+  have h5 := (List.pairwise_cons.mp h3).1 dirA (by simp) [] ['b'] ['a'] rfl rfl
+  obtain ⟨p, n, n', e1, e2, e3⟩ := h5.2.2 (Or.inl ⟨rfl, rfl⟩)
+  have hp : p = [] := by
+    cases p with
+    | nil => rfl
+    | cons a t =>
+      have := congrArg List.length e1
+      simp [fileM, mkFileEntry] at this
+  subst hp
+  have hn : n = ['b'] := by simpa [fileM, mkFileEntry] using e1.symm
+  have hn' : n' = ['a'] := by simpa [dirA, mkDirEntry] using e2.symm
+  subst hn; subst hn'
+  exact absurd e3 (by decide)
 
 /-! ### c. `contents_first` without kind filter and lower depth bound: the post-order walk -/
 
@@ -116,10 +148,36 @@ theorem C08_finding_contents_first_min_depth_order :
     machine yields the post-order walk: every directory after its contents -/
 theorem C08_contents_first_partial (snap : Snap) (o : Opts) (rootE : Entry)
     (hwf : SnapWf snap) (hroot : InSnap snap rootE) (hfol : o.follow = false)
-    (hcf : o.contentsFirst = true) (hmin : o.minDepth = 0) (hfiles : o.files = false) (hdirs : o.dirs = false)
+    (hcf : o.contentsFirst = true) (hmin : o.minDepth = 0) (hfiles : o.files = false) (_hdirs : o.dirs = false)
     (hord : OrdOk o) :
     collectEntries snap o rootE = .ok (entriesSpec snap o rootE) :=
-  Lemmas.Walk.collectEntries_post hwf hfol ⟨hcf, hmin, hfiles, hdirs⟩ hord hroot
+  Lemmas.Walk.collectEntries_post hwf hfol ⟨hcf, hmin, hfiles⟩ hord hroot
+
+/-- STRENGTHENED (after the repair): `contents_first` WITH a kind filter — `dirs()` or `files()`,
+    `min_depth = 0`, any `max_depth`, ordering, cap — yields the post-order walk restricted to the
+    selected entries. For `files()` the entries must not carry both kind flags (`FlagsExcl`,
+    decidable; see `C08_flags_excl_needed`) -/
+theorem C08_contents_first_filter_partial (snap : Snap) (o : Opts) (rootE : Entry)
+    (hwf : SnapWf snap) (hroot : InSnap snap rootE) (hfol : o.follow = false)
+    (hcf : o.contentsFirst = true) (hmin : o.minDepth = 0) (hk : KindOk o) (hord : OrdOk o)
+    (hx : o.files = true → FlagsExcl snap) :
+    collectEntries snap o rootE = .ok (entriesSpec snap o rootE) :=
+  Lemmas.WalkCF.collectEntries_exact2 hwf ⟨hfol, hord, Or.inr ⟨hcf, hmin, hk⟩⟩ (fun _ => hx) hroot
+
+/-- with `dirs().contents_first()` no side condition is needed -/
+theorem C08_contents_first_dirs_partial (snap : Snap) (o : Opts) (rootE : Entry)
+    (hwf : SnapWf snap) (hroot : InSnap snap rootE) (hfol : o.follow = false)
+    (hcf : o.contentsFirst = true) (hmin : o.minDepth = 0) (hfiles : o.files = false) (hord : OrdOk o) :
+    collectEntries snap o rootE = .ok (entriesSpec snap o rootE) :=
+  Lemmas.Walk.collectEntries_post hwf hfol ⟨hcf, hmin, hfiles⟩ hord hroot
+
+/-- model-level remark: `FlagsExcl` cannot be dropped. The model's `Entry` keeps `dir` and `file`
+    as independent flags; for an entry carrying both, `files().contents_first()` defers it although
+    the directories around it are not deferred, and it is yielded late -/
+theorem C08_flags_excl_needed :
+    SnapWf snapX ∧ InSnap snapX rootX ∧ ¬ FlagsExcl snapX ∧
+    collectEntries snapX oX rootX = .ok [fileX, dirX] ∧ entriesSpec snapX oX rootX = [dirX, fileX] := by
+  decide
 
 /-! ### f. termination -/
 
@@ -136,8 +194,8 @@ theorem C08_never_hangs_no_follow (snap : Snap) (o : Opts) (rootE : Entry)
   obtain ⟨es, h⟩ := Lemmas.Walk.collectEntries_ok (o := o) hwf hfol hroot
   rw [h]; intro h'; cases h'
 
-/-- for EVERY option combination (including `contents_first` with filters and `min_depth`, where
-    the order and the filter are off): no path is yielded twice, and everything yielded is a
+/-- for EVERY option combination (including `contents_first` with `min_depth > 0`, where the order
+    is off): no path is yielded twice, and everything yielded is a
     snapshot entry at or below the root, not deeper than `max_depth` -/
 theorem C08_each_once_all_options (snap : Snap) (o : Opts) (rootE : Entry) (es : List Entry)
     (hwf : SnapWf snap) (hroot : InSnap snap rootE) (hfol : o.follow = false)
@@ -228,6 +286,73 @@ example : SnapWf C08w.snapM ∧ InSnap C08w.snapM C08w.rootM ∧
     ExactDom { sorted := true, dirsFirst := true, files := true, minDepth := 1, maxDepth := 3, maxDesc := 0 } ∧
     ExactDom { sorted := true, contentsFirst := true, maxDepth := 2 } := by decide
 
+/-! ### d'. the same on the wider domain `ExactDom2` (after the repair)
+
+  `ExactDom2 o` (decidable, Lemmas/WalkCF.lean) = `ExactDom o` with the `contents_first` alternative
+  widened to "`min_depth = 0` and `KindOk`": `contents_first` may be combined with `dirs()` or
+  `files()`. `FlagsOkFor snap o` (decidable) = with `files().contents_first()` no snapshot entry
+  carries both kind flags. Every theorem of d. is an instance (`ExactDom.to2`). -/
+
+theorem C08_exact2 (snap : Snap) (o : Opts) (rootE : Entry)
+    (hwf : SnapWf snap) (hroot : InSnap snap rootE) (hdom : ExactDom2 o) (hx : FlagsOkFor snap o) :
+    collectEntries snap o rootE = .ok (entriesSpec snap o rootE) :=
+  Lemmas.WalkCF.collectEntries_exact2 hwf hdom hx hroot
+
+/-- `ExactDom2` contains `ExactDom` (where `FlagsOkFor` holds trivially) -/
+theorem C08_exactDom_sub (snap : Snap) (o : Opts) (hdom : ExactDom o) : ExactDom2 o ∧ FlagsOkFor snap o := by
+  refine ⟨Lemmas.WalkCF.ExactDom.to2 hdom, ?_⟩
+  intro hcf hf
+  obtain ⟨_, _, h | h⟩ := hdom
+  · rw [h.1] at hcf; cases hcf
+  · rw [h.2.2.1] at hf; cases hf
+
+theorem C08_membership2 (snap : Snap) (o : Opts) (rootE : Entry) (es : List Entry)
+    (hwf : SnapWf snap) (hroot : InSnap snap rootE) (hdom : ExactDom2 o) (hx : FlagsOkFor snap o)
+    (h : collectEntries snap o rootE = .ok es) (y : Entry) :
+    y ∈ es ↔ InSnap snap y ∧ ∃ t, y.path = rootE.path ++ t ∧ (t = [] ∨ t.length ≤ o.maxDepth) ∧
+      Chain snap rootE.path t ∧ selected o y t.length = true := by
+  rw [Lemmas.WalkCF.es_eq_of_exact2 hwf hroot hdom hx h, entriesSpec,
+    Lemmas.Walk.mem_walk_iff hwf o _ rootE 0 y hroot (Nat.lt_succ_of_le (Lemmas.Walk.pot_le _ _))]
+  simp only [Nat.zero_add]
+
+theorem C08_each_once2 (snap : Snap) (o : Opts) (rootE : Entry) (es : List Entry)
+    (hwf : SnapWf snap) (hroot : InSnap snap rootE) (hdom : ExactDom2 o) (hx : FlagsOkFor snap o)
+    (h : collectEntries snap o rootE = .ok es) : (es.map (·.path)).Nodup := by
+  rw [Lemmas.WalkCF.es_eq_of_exact2 hwf hroot hdom hx h]
+  exact Lemmas.Walk.walk_nodup hwf o _ rootE 0 hroot
+
+/-- nothing a filter rejects is yielded — now also with `contents_first` -/
+theorem C08_filter_respected2 (snap : Snap) (o : Opts) (rootE : Entry) (es : List Entry)
+    (hwf : SnapWf snap) (hroot : InSnap snap rootE) (hdom : ExactDom2 o) (hx : FlagsOkFor snap o)
+    (h : collectEntries snap o rootE = .ok es) :
+    ∀ y ∈ es, InSnap snap y ∧ rootE.path <+: y.path ∧
+      (o.files = true → y.file = true) ∧ (o.dirs = true → y.dir = true) ∧
+      o.minDepth ≤ y.path.length - rootE.path.length ∧
+      (y = rootE ∨ y.path.length - rootE.path.length ≤ o.maxDepth) := by
+  rw [Lemmas.WalkCF.es_eq_of_exact2 hwf hroot hdom hx h]
+  exact Lemmas.Walk.spec_filter_respected hwf o hroot
+
+theorem C08_contents_before_parents2 (snap : Snap) (o : Opts) (rootE : Entry) (es : List Entry)
+    (hwf : SnapWf snap) (hroot : InSnap snap rootE) (hdom : ExactDom2 o) (hx : FlagsOkFor snap o)
+    (hcf : o.contentsFirst = true) (h : collectEntries snap o rootE = .ok es) :
+    es.Pairwise (fun a b => ¬ (a.path <+: b.path ∧ a.path ≠ b.path)) := by
+  rw [Lemmas.WalkCF.es_eq_of_exact2 hwf hroot hdom hx h]
+  exact Lemmas.Walk.walk_contents_first hwf o hcf _ rootE 0 hroot
+
+theorem C08_sorted_siblings2 (snap : Snap) (o : Opts) (rootE : Entry) (es : List Entry)
+    (hwf : SnapWf snap) (hroot : InSnap snap rootE) (hdom : ExactDom2 o) (hx : FlagsOkFor snap o)
+    (h : collectEntries snap o rootE = .ok es) :
+    es.Pairwise (fun a b => ∀ p n n', a.path = p ++ [n] → b.path = p ++ [n'] → sibOrd o a b) := by
+  rw [Lemmas.WalkCF.es_eq_of_exact2 hwf hroot hdom hx h]
+  exact Lemmas.Walk.walk_siblings hwf o _ rootE 0 hroot
+
+/-- non-vacuity: the new part of the domain is inhabited, the side condition holds of the
+    witnesses (and fails only for the artificial `snapX`) -/
+example : ExactDom2 { sorted := true, contentsFirst := true, files := true, maxDepth := 2 } ∧
+    ExactDom2 { sorted := true, dirsFirst := true, contentsFirst := true, dirs := true } ∧
+    ¬ ExactDom { sorted := true, contentsFirst := true, files := true, maxDepth := 2 } ∧
+    FlagsExcl C08w.snapM ∧ FlagsExcl C08w.snapB ∧ FlagsOkFor C08w.snapM C08w.oB := by decide
+
 /-! ### e. the listing helpers `paths`/`dirs`/`files` (`maxDepth = some 1`) and `all_*` (`none`)
 
   Stated over the state-level `listing`. Two facts about `_clone_entries` are taken as EXPLICIT
@@ -288,9 +413,13 @@ example : ∃ rootE snap, Spec.Inv sL ∧ isDirP sL [['a']] = true ∧ entriesOf
   --   explicit decidable hypotheses of `C08_listing_helpers`, checked by `#eval` on model-generated
   --   states with links in Rivia/Spec/WalkTest.lean.
   -- * `follow = true` (LinkLooping instead of endless descent): no spec written yet.
-  -- * exactness with `contents_first` outside c.'s domain is FALSE (findings in b.); what holds
-  --   there for every option combination is `C08_terminates_no_follow` and
-  --   `C08_each_once_all_options`.
+  -- * exactness with `contents_first` and `min_depth > 0` is FALSE (finding
+  --   `contents_first_min_depth_order` in b., not repaired); what holds there for every option
+  --   combination is `C08_terminates_no_follow` and `C08_each_once_all_options`.
+  --   (`contents_first` with a kind filter: repaired, exact on `ExactDom2`, d'.)
+  -- * `FlagsExcl snap` is a hypothesis here (`Spec.Inv` alone does not record that `dir` and `file`
+  --   are exclusive); it is discharged from `C03_Strong` in Props/C08S.lean (`flagsExcl_of_strong`,
+  --   `C08_exact2_strong`, `C08_exact2_reachable`).
 -/
 
 end Rivia.Props
